@@ -136,3 +136,105 @@ macro_rules! rv_suite {
 rv_suite!(spsc_rv, fibre::spsc::rendezvous, c05_q_rvspsc_recv_vs_try_send, c05_t_rvspsc_send_vs_try_recv, c01_q_rvspsc_recv_timeout_vs_try_send, c04_t_rvspsc_parked_vs_peer_drop);
 rv_suite!(mpsc_rv, fibre::mpsc::rendezvous, c05_q_rvmpsc_recv_vs_try_send, c05_t_rvmpsc_send_vs_try_recv, c01_q_rvmpsc_recv_timeout_vs_try_send, c04_t_rvmpsc_parked_vs_peer_drop);
 rv_suite!(mpmc_rv, fibre::mpmc::rendezvous, c05_t_rvmpmc_recv_vs_try_send, c05_t_rvmpmc_send_vs_try_recv, c01_x_rvmpmc_recv_timeout_vs_try_send, c04_t_rvmpmc_parked_vs_peer_drop);
+
+// ---------------------------------------------------------------- async fronts, sequential at poll granularity
+use std::future::Future;
+use std::pin::Pin;
+use std::task::{Context, Poll};
+
+fn poll_slot<F: Future>(slot: &mut Option<F>, w: usize) -> Poll<F::Output> {
+  let f = unsafe { Pin::new_unchecked(slot.as_mut().unwrap()) };
+  let wk = waker(w);
+  let mut cx = Context::from_waker(&wk);
+  f.poll(&mut cx)
+}
+
+macro_rules! rv_async_suite {
+  ($modname:ident, $path:path, $sf:expr, $h1:ident, $h2:ident, $h3:ident) => {
+    mod $modname {
+      use super::*;
+      use $path as rv;
+      const SENDER_FIRST: bool = $sf;
+
+      /// C03/C06: nothing completes without a partner; pairing wakes the pending side; the value is
+      /// handed over exactly once. `sender_first` chooses which side is pending.
+      #[kani::proof]
+      #[kani::unwind(5)]
+      pub(crate) fn $h1() {
+        let (tx, rx) = rv::rendezvous_async::<u8>();
+        assert!(matches!(tx.try_send(1), Err(TrySendError::Full(1))), "C03: rendezvous try_send succeeded with no receiver waiting");
+        assert!(rx.try_recv() == Err(TryRecvError::Empty), "C03: rendezvous try_recv succeeded with no sender waiting");
+        let sender_first: bool = SENDER_FIRST;
+        if sender_first {
+          let mut f = Some(tx.send(7));
+          assert!(poll_slot(&mut f, 0).is_pending(), "C03: rendezvous send completed without pairing with a receive");
+          assert!(rx.try_recv() == Ok(7), "C01: value of a parked sender not handed to try_recv");
+          assert!(wakes(0) >= 1, "C06: pending rendezvous send not woken when a receiver took its value");
+          assert!(matches!(poll_slot(&mut f, 0), Poll::Ready(Ok(()))), "C06: woken rendezvous send did not complete");
+          f = None;
+          assert!(rx.try_recv() == Err(TryRecvError::Empty), "C01: rendezvous value delivered twice");
+        } else {
+          let mut g = Some(rx.recv());
+          assert!(poll_slot(&mut g, 1).is_pending(), "C03: rendezvous recv completed without a sender");
+          assert!(tx.try_send(7).is_ok(), "C03: try_send failed although a receiver is waiting");
+          assert!(wakes(1) >= 1, "C06: pending rendezvous recv not woken when a sender handed a value over");
+          assert!(matches!(poll_slot(&mut g, 1), Poll::Ready(Ok(7))), "C06: woken rendezvous recv did not complete with the value");
+          g = None;
+          assert!(matches!(tx.try_send(8), Err(TrySendError::Full(8))), "C03: rendezvous try_send succeeded after the receiver had completed");
+        }
+      }
+
+      /// C06/C09: a cancelled pending send does not ghost-deliver and its value is dropped exactly once;
+      /// a cancelled pending recv consumes nothing.
+      #[kani::proof]
+      #[kani::unwind(5)]
+      pub(crate) fn $h2() {
+        let (tx, rx) = rv::rendezvous_async::<Tag>();
+        let cancel_send: bool = SENDER_FIRST;
+        if cancel_send {
+          let mut f = Some(tx.send(Tag(0)));
+          assert!(poll_slot(&mut f, 0).is_pending(), "C03: rendezvous send completed without pairing with a receive");
+          f = None;
+          assert!(drops(0) == 1, "C09: value of a cancelled rendezvous send not dropped exactly once");
+          assert!(rx.try_recv().is_err(), "C06: cancelled rendezvous send delivered its value");
+        } else {
+          let mut g = Some(rx.recv());
+          assert!(poll_slot(&mut g, 1).is_pending(), "C03: rendezvous recv completed without a sender");
+          g = None;
+          match tx.try_send(Tag(0)) {
+            Err(TrySendError::Full(v)) => drop(v),
+            _ => assert!(false, "C06: try_send paired with a cancelled receive"),
+          }
+          assert!(drops(0) == 1, "C09: value handed back by try_send not dropped exactly once");
+        }
+      }
+
+      /// C04/C06: a pending send / recv is woken and fails when the peer handle goes away.
+      #[kani::proof]
+      #[kani::unwind(5)]
+      pub(crate) fn $h3() {
+        let (tx, rx) = rv::rendezvous_async::<u8>();
+        let sender_pending: bool = SENDER_FIRST;
+        if sender_pending {
+          let mut f = Some(tx.send(7));
+          assert!(poll_slot(&mut f, 0).is_pending(), "C03: rendezvous send completed without pairing with a receive");
+          drop(rx);
+          assert!(wakes(0) >= 1, "C06: pending rendezvous send not woken when the receiver went away");
+          assert!(matches!(poll_slot(&mut f, 0), Poll::Ready(Err(_))), "C04: pending rendezvous send did not report Closed");
+          std::mem::forget(f);
+        } else {
+          let mut g = Some(rx.recv());
+          assert!(poll_slot(&mut g, 1).is_pending(), "C03: rendezvous recv completed without a sender");
+          drop(tx);
+          assert!(wakes(1) >= 1, "C06: pending rendezvous recv not woken when the sender went away");
+          assert!(matches!(poll_slot(&mut g, 1), Poll::Ready(Err(_))), "C04: pending rendezvous recv did not report Disconnected");
+          std::mem::forget(g);
+        }
+      }
+    }
+  };
+}
+rv_async_suite!(spsc_rva_s, fibre::spsc::rendezvous, true, c03_t_rvspsc_async_pairing_sender_first, c06_t_rvspsc_async_cancel_send, c04_t_rvspsc_async_receiver_gone);
+rv_async_suite!(spsc_rva_r, fibre::spsc::rendezvous, false, c03_q_rvspsc_async_pairing_receiver_first, c06_q_rvspsc_async_cancel_recv, c04_q_rvspsc_async_sender_gone);
+rv_async_suite!(mpsc_rva_s, fibre::mpsc::rendezvous, true, c03_t_rvmpsc_async_pairing_sender_first, c06_t_rvmpsc_async_cancel_send, c04_t_rvmpsc_async_receiver_gone);
+rv_async_suite!(mpsc_rva_r, fibre::mpsc::rendezvous, false, c03_t_rvmpsc_async_pairing_receiver_first, c06_t_rvmpsc_async_cancel_recv, c04_t_rvmpsc_async_sender_gone);
